@@ -1,6 +1,6 @@
 (* Properties/C15.v — merge laws. *)
 From AY Require Import Model.Merge Spec.Update Proofs.MergePlain Proofs.Laws Proofs.Local.
-From AY Require Import Model.Loader Proofs.MergeGen.
+From AY Require Import Model.Loader Proofs.MergeGen Proofs.KeyOrder.
 
 (* Repeating the last document does not change the result: for every history of tag-free mapping documents and every
    well-formed last document (unique keys, no negative index keys), building docs ++ [d; d] and docs ++ [d] gives trees of
@@ -89,6 +89,23 @@ Proof.
   cbv zeta. split; [constructor; [exact Ya|constructor; [exact Yd|constructor]]|]. split; [constructor; [exact Ye|constructor; [exact Yf|constructor]]|].
   split; vm_compute; reflexivity.
 Qed.
+
+(* Permuting the order of keys inside any mapping of any document changes at most the order of keys in the result.  peqv is
+   equality up to the order of mapping entries at every depth (same key sets, related values; lists position by position);
+   for all tag-free histories of well-formed documents (unique non-negative-integer / string keys) whose documents are
+   pairwise peqv, the two builds give trees with peqv contents, or both fail with a MergeError. *)
+Theorem C15_key_order_neutral_plain : forall e d0 rest d0' rest',
+  forallb (fun d => is_PD (d_data d)) (d0 :: rest) = true -> forallb (fun d => is_PD (d_data d)) (d0' :: rest') = true ->
+  Forall (fun d => pwf (d_data d)) (d0 :: rest) ->
+  Forall2 (fun d d' => peqv (d_data d) (d_data d')) (d0 :: rest) (d0' :: rest') ->
+  same_up_to_key_order (flatten e (map load_plain (d0 :: rest))) (flatten e (map load_plain (d0' :: rest'))).
+Proof. exact flatten_key_order. Qed.
+Print Assumptions C15_key_order_neutral_plain.
+
+(* ... and peqv does relate a mapping to every permutation of its entries *)
+Theorem C15_permutation_is_peqv : forall kv kv', pwf (PD kv) -> Permutation.Permutation kv kv' -> peqv (PD kv) (PD kv').
+Proof. exact peqv_permutation. Qed.
+Print Assumptions C15_permutation_is_peqv.
 
 (* the reference update is idempotent *)
 Theorem C15_update_idempotent : forall d, pwf d -> forall a r, upd a d = Ok r -> upd r d = Ok r.
